@@ -226,7 +226,7 @@ def render_machine(prog, base_name=None):
             body.append(line)
     lines.append("".join(body).rstrip("\n"))
     for cbid in sorted(prog["cbs"]):
-        if cbid.startswith("machine."):
+        if cbid.startswith("machine.") and not prog["cbs"][cbid].get("inherited"):
             lines.append(render_cb(prog, cbid).rstrip("\n"))
     return "\n".join(lines) + "\n"
 
